@@ -9,7 +9,7 @@
 From V.Lib Require Import Base MachInt.
 From V.Gen Require Import C14Consts.
 From V.Gen Require C07Consts.
-From V.C07 Require Model Spec FeeMono Balance Balance2 Properties.
+From V.C07 Require Model Spec Proofs Inv FeeMono Balance Balance2 FeeShape Valid Properties.
 From V.C14 Require Import Model Spec Proofs.
 From Coq Require Import ZifyBool.
 Local Open Scope Z_scope.
@@ -380,4 +380,156 @@ Proof.
     replace (M7.fee b - shape_fee <? - MAX_MONEY) with false by (unfold MAX_MONEY in *; lia).
     replace (M7.fee b - shape_fee <? 0) with false by lia.
     replace (0 <? M7.fee b - shape_fee) with true by lia. reflexivity.
+Qed.
+
+(* ------------------------------------------------------------ the builder's checked sums succeed *)
+Lemma zat_sum_from_ok l : forall acc, Forall (fun v => 0 <= v) l -> 0 <= acc -> acc + zsum l <= MAX_MONEY ->
+  zat_sum_from acc l = Some (acc + zsum l).
+Proof.
+  unfold zsum. induction l as [|v l IH]; intros acc F Ha Hb; cbn [zat_sum_from fold_right] in *.
+  - f_equal. lia.
+  - inversion F as [|? ? Hv F']; subst.
+    assert (0 <= fold_right Z.add 0 l) by (clear - F'; induction F'; cbn [fold_right]; lia).
+    replace (acc + v <=? MAX_MONEY) with true by lia.
+    rewrite IH by (auto; lia). f_equal. lia.
+Qed.
+Lemma zat_sum_ok l : Forall (fun v => 0 <= v) l -> zsum l <= MAX_MONEY -> zat_sum l = Some (zsum l).
+Proof. intros F H. unfold zat_sum. rewrite zat_sum_from_ok by (auto; lia). reflexivity. Qed.
+
+Lemma zsum_nonneg l : Forall (fun v => 0 <= v) l -> 0 <= zsum l.
+Proof. unfold zsum. induction 1; cbn [fold_right]; lia. Qed.
+
+Lemma vsum_from_up l : forall acc, Forall (fun v => 0 <= v) l -> - u64_max <= acc -> acc + zsum l <= u64_max ->
+  vsum_from acc l = Some (acc + zsum l).
+Proof.
+  unfold zsum. induction l as [|v l IH]; intros acc F Ha Hb; cbn [vsum_from fold_right] in *.
+  - f_equal. lia.
+  - inversion F as [|? ? Hv F']; subst. pose proof (zsum_nonneg _ F') as N. unfold zsum in N.
+    unfold in_range. replace ((- u64_max <=? acc + v) && (acc + v <=? u64_max)) with true by lia.
+    rewrite IH by (auto; lia). f_equal. lia.
+Qed.
+Lemma vsum_from_down l : forall acc, Forall (fun v => 0 <= v) l -> acc <= u64_max -> - u64_max <= acc - zsum l ->
+  vsum_from acc (map Z.opp l) = Some (acc - zsum l).
+Proof.
+  unfold zsum. induction l as [|v l IH]; intros acc F Ha Hb; cbn [vsum_from fold_right map] in *.
+  - f_equal. lia.
+  - inversion F as [|? ? Hv F']; subst. pose proof (zsum_nonneg _ F') as N. unfold zsum in N.
+    unfold in_range. replace ((- u64_max <=? acc + - v) && (acc + - v <=? u64_max)) with true by lia.
+    rewrite IH by (auto; lia). f_equal. lia.
+Qed.
+Lemma vsum_from_app a b : forall acc,
+  vsum_from acc (a ++ b) = match vsum_from acc a with Some m => vsum_from m b | None => None end.
+Proof.
+  induction a as [|v a IH]; intros acc; cbn [vsum_from app]; [reflexivity|].
+  destruct (in_range (- u64_max) u64_max (acc + v)); [apply IH|reflexivity].
+Qed.
+Lemma orchard_balance_ok sp outs : Forall (fun v => 0 <= v) sp -> Forall (fun v => 0 <= v) outs ->
+  zsum sp <= MAX_MONEY -> zsum outs <= MAX_MONEY ->
+  orchard_balance sp outs = Some (zsum sp - zsum outs).
+Proof.
+  intros Fs Fo Hs Ho. pose proof (zsum_nonneg _ Fs). pose proof (zsum_nonneg _ Fo).
+  unfold orchard_balance. rewrite vsum_from_app.
+  assert (MAX_MONEY < u64_max) by (unfold MAX_MONEY, u64_max; lia).
+  rewrite vsum_from_up by (auto; unfold u64_max in *; lia). cbn [Z.add].
+  rewrite vsum_from_down by (auto; lia).
+  unfold in_range. replace ((- MAX_MONEY <=? zsum sp - zsum outs) && (zsum sp - zsum outs <=? MAX_MONEY)) with true by lia.
+  reflexivity.
+Qed.
+
+Lemma in_bal_true v : - MAX_MONEY <= v <= MAX_MONEY -> in_bal v = true.
+Proof. unfold in_bal, in_range. lia. Qed.
+
+Record nonneg_tx (x : M7.txin) : Prop := {
+  nn_ti : Forall (fun v => 0 <= v) (map fst (M7.t_in x));
+  nn_to : Forall (fun v => 0 <= v) (map fst (M7.t_out x));
+  nn_si : Forall (fun v => 0 <= v) (M7.s_in x); nn_so : Forall (fun v => 0 <= v) (M7.s_out x);
+  nn_oi : Forall (fun v => 0 <= v) (M7.o_in x); nn_oo : Forall (fun v => 0 <= v) (M7.o_out x);
+  nn_ii : Forall (fun v => 0 <= v) (M7.i_in x); nn_io : Forall (fun v => 0 <= v) (M7.i_out x) }.
+
+Lemma vals_nonneg p chg : Forall (fun v => 0 <= M7.cv_value v) chg -> Forall (fun v => 0 <= v) (vals p chg).
+Proof.
+  unfold vals. induction 1 as [|v l Hv _ IH]; cbn [filter map]; [constructor|].
+  destruct (M7.is_pool_cv p v); cbn [map]; auto.
+Qed.
+Lemma tvals_nonneg chg : Forall (fun v => 0 <= M7.cv_value v) chg -> Forall (fun v => 0 <= v) (tvals chg).
+Proof.
+  unfold tvals. induction 1 as [|v l Hv _ IH]; cbn [flat_map]; [constructor|].
+  destruct v; cbn [app]; auto.
+Qed.
+
+(** With non-negative amounts, the builder's checked sums cannot fail on a request derived from a
+    successful proposal: every partial sum is bounded by the proposal's input total. *)
+Theorem value_balance_ok n x c b rt :
+  M7.compute_balance x c = Ok b -> compatible n x c -> rt <> Deferred -> nonneg_tx x ->
+  exists bal, value_balance (req_of n x c b rt) = Ok bal.
+Proof.
+  intros H K ND NN.
+  pose proof (std_rule_pos _ (k_rule _ _ _ K)) as RP.
+  pose proof (no_eph_of _ _ _ H (k_rule _ _ _ K) (k_eph _ _ _ K)) as NE.
+  assert (EV : V.C07.Valid.eph_valid c) by (unfold V.C07.Valid.eph_valid; now rewrite (k_eph _ _ _ K)).
+  pose proof (V.C07.Valid.change_valid_holds _ _ _ H RP EV) as CVd.
+  apply V.C07.Balance2.compute_ok_facts in H; [|exact RP].
+  destruct H as (nf & ti & so & sin & mf & towmf & tcc & chg0 & St & FS & Hch & _ & _ & _ & Cons & _ & _ & Hti & _).
+  destruct St as [_ Sti Sso _ _ _ _]. apply V.C07.Inv.total_in_ok in Sti. apply V.C07.Inv.total_out_ok in Sso.
+  destruct Sti as [Eti _]. destruct Sso as [Eso Rso].
+  destruct FS as [F1 F2 F3 F4 F5 F6 F7 F8 FR].
+  rewrite (k_eph _ _ _ K) in F1, F2. cbn [M7.eph_in_amount M7.eph_out_amount S7.opt_z] in F1, F2.
+  unfold V.C07.Balance.eph_list, M7.eph_out_amount in Hch. rewrite (k_eph _ _ _ K), app_nil_r in Hch. subst chg0.
+  rewrite (change_total_split _ NE) in Cons.
+  unfold S7.change_valid in CVd. rewrite !andb_true_iff in CVd. destruct CVd as ((CV1 & F0) & _).
+  apply Z.leb_le in F0.
+  assert (CN : Forall (fun v => 0 <= M7.cv_value v) (M7.change b)).
+  { rewrite forallb_forall in CV1. apply Forall_forall. intros v Hv. specialize (CV1 v Hv). lia. }
+  pose proof (vals_nonneg M7.Sapling _ CN) as N1. pose proof (vals_nonneg M7.Orchard _ CN) as N2.
+  pose proof (vals_nonneg M7.Ironwood _ CN) as N3. pose proof (tvals_nonneg _ CN) as N4.
+  destruct NN as [A1 A2 A3 A4 A5 A6 A7 A8].
+  pose proof (zsum_nonneg _ N1). pose proof (zsum_nonneg _ N2). pose proof (zsum_nonneg _ N3). pose proof (zsum_nonneg _ N4).
+  pose proof (zsum_nonneg _ A1). pose proof (zsum_nonneg _ A2). pose proof (zsum_nonneg _ A3). pose proof (zsum_nonneg _ A4).
+  pose proof (zsum_nonneg _ A5). pose proof (zsum_nonneg _ A6). pose proof (zsum_nonneg _ A7). pose proof (zsum_nonneg _ A8).
+  change S7.zsum with zsum in *. change M7.A.MAX_MONEY with MAX_MONEY in *.
+  assert (Total : zsum (map fst (M7.t_in x)) + zsum (M7.s_in x) + zsum (M7.o_in x) + zsum (M7.i_in x) <= MAX_MONEY)
+    by (clear - Eti F1 F3 F5 F7 Hti; lia).
+  assert (Conserve : zsum (map fst (M7.t_out x)) + zsum (M7.s_out x) + zsum (M7.o_out x) + zsum (M7.i_out x)
+                     + zsum (vals M7.Sapling (M7.change b)) + zsum (vals M7.Orchard (M7.change b))
+                     + zsum (vals M7.Ironwood (M7.change b)) + zsum (tvals (M7.change b)) + M7.fee b
+                     = zsum (map fst (M7.t_in x)) + zsum (M7.s_in x) + zsum (M7.o_in x) + zsum (M7.i_in x))
+    by (clear - Eti Eso F1 F2 F3 F4 F5 F6 F7 F8 Cons; lia).
+  clear Eti Eso F1 F2 F3 F4 F5 F6 F7 F8 FR Cons Hti Rso CV1 RP EV NE CN.
+  set (r := req_of n x c b rt).
+  assert (Es : e_sap (env_of r) = true).
+  { unfold env_of, is_deferred. subst r. cbn [req_of r_route r_sap e_sap]. destruct rt; try reflexivity. congruence. }
+  unfold value_balance. rewrite Es. unfold tin_vals, sapling_balance.
+  change (r_ops r) with (ops_of x (M7.change b)).
+  rewrite p_tin, p_tout, p_ss, p_so, p_os, p_oo, p_oc, p_is, p_io.
+  rewrite !map_app, !map_map. cbn [fst].
+  change (map (fun x0 : Z * M7.tsize => fst x0) (M7.t_in x)) with (map fst (M7.t_in x)).
+  change (map (fun x0 : Z * Z => fst x0) (M7.t_out x)) with (map fst (M7.t_out x)).
+  rewrite (map_id (tvals (M7.change b))).
+  rewrite (zat_sum_ok (map fst (M7.t_in x))) by (auto; lia).
+  rewrite (zat_sum_ok (map fst (M7.t_out x) ++ tvals (M7.change b)))
+    by (first [apply Forall_app; split; assumption | rewrite ?zsum_app; lia]).
+  rewrite !zsum_app.
+  rewrite in_bal_true by lia. cbn [negb].
+  destruct (e_orc (env_of r)); destruct (e_iw (env_of r));
+    rewrite ?orchard_balance_ok
+      by (first [assumption | apply Forall_app; split; assumption | rewrite ?zsum_app; lia]);
+    rewrite ?zsum_app; rewrite !in_bal_true by lia; cbn [andb]; eauto.
+Qed.
+
+(** The agreement without assuming anything about the builder's arithmetic. *)
+Corollary c07_c14_build n x c b rt hd :
+  M7.compute_balance x c = Ok b -> compatible n x c -> rt <> Deferred -> nonneg_tx x ->
+  let r := req_of n x c b rt in
+  let shape_fee := S7.shape_fee x c (M7.change b) (M7.dummies b) 0 in
+  run_ops r [] (r_ops r) (init_hdr r) 0 = Ok hd ->
+  check_version r (r_ops r) (fst hd) = None ->
+  (rt = Pczt -> zip212_on n (M7.target_height c) = true) ->
+  (rt <> Pczt -> has_overwinter (fst hd) = true) ->
+  rule_fee RZip317 (req_shape r) = shape_fee /\
+  (M7.fee b = shape_fee -> build r = Ok (assemble r hd (M7.fee b))) /\
+  (M7.fee b <> shape_fee -> build r = Err (EChange (M7.fee b - shape_fee))).
+Proof.
+  intros H K ND NN r shape_fee RO CV Hz Ho.
+  destruct (value_balance_ok n x c b rt H K ND NN) as [bal VB].
+  destruct (c07_c14_agree n x c b rt hd bal H K ND RO CV VB Hz Ho) as (A & _ & B & C). auto.
 Qed.
